@@ -2,6 +2,7 @@
 import re
 from vf.extract import Source, Unit
 from vf.lex import Rule, ExtractionBreak
+from vf import lex
 from vf.pipeline import Group, Replay, ALL_LIB
 
 ID = 'C14'
@@ -24,7 +25,7 @@ def exact_unit(ctx, src):
     for nm, a1, a1c in (('readx', 'int fd', 'int fd'), ('preadx', 'int fd', 'int fd'), ('freadx', r'FILE\* f', 'C14_FILE* f')):
         off = ', off_t offset' if nm == 'preadx' else ''
         u.function(src, CC, r'void %s\(%s, void\* data, size_t size%s\)' % (nm, a1, off),
-                   new_header='void phosg_%s(%s, void* data, size_t size%s)' % (nm, a1c, off), rules=[SYS()], ret_zero='')
+                   new_header='void phosg_%s(%s, void* data, size_t size%s)' % (nm, a1c, off), rules=[SYS()], ret_zero='', must_loops=False)
         u.function(src, CC, r'string %s\(%s, size_t size%s\)' % (nm, a1, off),
                    new_header='void phosg_%s_str(vstr* ret, %s, size_t size%s)' % (nm, a1c, off),
                    rules=[Rule(r'string ret\(size, 0\);', "vstr_resize(ret, size, 0);", count=1, regex=True),
@@ -280,7 +281,13 @@ def plan(ctx):
     H = 'harness/C14/exact.c'
 
     def E(fn, cxx, replace, mode='exact'):
-        groups.append(Group(name='Filesystem.' + fn, harness=H, entry='h_' + fn, function=cxx, enforce='phosg_' + fn, replace=replace,
+        # the exact-size functions are single calls in the code as it is; a version that loops until everything has arrived has no loop
+        # contract here: it is checked with its loop unwound for requests of at most 4 bytes (bounded stand-in, labelled)
+        mtxt = re.search(r'\nvoid phosg_%s\([^\n]*\)\n\{(.*?)\n\}\n' % re.escape(fn), ue.text(), re.S)
+        loopy = bool(mtxt and re.search(r'\b(?:while|for|do)\b', lex.mask(mtxt.group(1))))
+        kwb = dict(kind='bounded', bound='the function now contains a loop without loop contract: size <= 4, unwound 6 times (unwinding assertions on)',
+                   cbmc_flags=['--unwind', '6', '--unwinding-assertions'], defines=['C14_EXACT_SMALL=1']) if loopy else {}
+        groups.append(Group(name='Filesystem.' + fn, harness=H, entry='h_' + fn, function=cxx, enforce='phosg_' + fn, replace=replace, **kwb,
                             clause_note='returns normally iff the one underlying call transferred exactly `size` bytes; then the buffer holds '
                                         'exactly those stream bytes (ghost index); otherwise io_error',
                             replay=Replay(driver='C14/fs.cc', mode=mode, extra=[fn], sources=ALL_LIB, small_define='VERIF_SMALL')))
